@@ -304,6 +304,7 @@ struct World {
   int         fault[FS_NSITES] = { 0 };
   std::vector<std::string> eff_domains; // search configuration currently in force (changes with a successful reinit when it comes from the file)
   int                      eff_ndots = 1;
+  int         issuing_tok = -1; // the request whose entry point is executing right now (its first transmissions happen inside it)
   int         rot_draws = 0, rot_last = -1;
   int         fault_skip[FS_NSITES] = { 0 }; // calls of that site that still succeed before the armed fault fires
   int         next_fd = 10;
